@@ -111,6 +111,7 @@ type clause struct {
 	isIn   bool
 	pats   []pat   // for When
 	tuples [][]pat // for In (each pat is val or any)
+	typed  []bool  // for In on a func(xs ...T): the alternative is given as a []T instead of a []interface{}
 	result int
 }
 
@@ -239,10 +240,24 @@ func TestC04(t *testing.T) {
 				c.isIn = true
 				for tcount := 1 + rng.Intn(3); tcount > 0; tcount-- {
 					var tp []pat
-					for i := 0; i < n; i++ {
-						tp = append(tp, genPat(i, false))
+					nn := n
+					if variadic && rng.Bool() {
+						// alternatives of a variadic target need not have the same length
+						if nn = arity(); nn == 0 {
+							nn = 1
+						}
+					}
+					typed := variadic && nfixed == 0 && rng.Bool()
+					for i := 0; i < nn; i++ {
+						p := genPat(i, false)
+						if typed && p.kind != "val" {
+							pl := pool(typeAt(i))
+							p = pat{"val", []interface{}{pl[rng.Intn(len(pl))]}}
+						}
+						tp = append(tp, p)
 					}
 					c.tuples = append(c.tuples, tp)
+					c.typed = append(c.typed, typed)
 				}
 			} else {
 				for i := 0; i < n; i++ {
@@ -266,10 +281,18 @@ func TestC04(t *testing.T) {
 			for _, c := range clauses {
 				if c.isIn {
 					var ts []interface{}
-					for _, tp := range c.tuples {
+					for ti, tp := range c.tuples {
 						var one []interface{}
 						for _, p := range tp {
 							one = append(one, p.expr())
+						}
+						if c.typed[ti] {
+							sl := reflect.MakeSlice(reflect.SliceOf(elem), 0, len(tp))
+							for _, p := range tp {
+								sl = reflect.Append(sl, reflect.ValueOf(p.vals[0]))
+							}
+							ts = append(ts, sl.Interface())
+							continue
 						}
 						if len(one) == 1 && !variadic && rng.Bool() { // bare form documented for single-parameter functions
 							ts = append(ts, one[0])
@@ -321,7 +344,15 @@ func TestC04(t *testing.T) {
 			callTuples = append(callTuples, genTuple(arity()))
 		}
 		fv := reflect.ValueOf(tg.fn)
+		scratch := &P2{} // one caller-side object passed again and again with other contents
 		for _, args := range callTuples {
+			for i, a := range args {
+				if q, ok := a.(*P2); ok && q != nil && typeAt(i) == reflect.TypeOf(q) && rng.Bool() {
+					*scratch = *q
+					args[i] = scratch
+					rep.Stat("calls_passing_one_reused_pointer", 1)
+				}
+			}
 			want, wantPanic, nmatch := 0, false, 0
 			first := -1
 			for i, c := range clauses {
@@ -369,6 +400,13 @@ func TestC04(t *testing.T) {
 			rep.Class(fmt.Sprintf("%s/%s/%s", sigClass, kinds, outcome))
 			c := map[string]interface{}{"config": desc, "args": showAll(args)}
 			keyFor := func(k string) string {
+				if first >= 0 && clauses[first].isIn {
+					for _, tp := range clauses[first].tuples {
+						if len(tp) != len(clauses[first].tuples[0]) {
+							return "C04/in-alternatives-of-different-length"
+						}
+					}
+				}
 				if variadic && nfixed > 0 {
 					return "C04/variadic-leading-fixed"
 				}
